@@ -49,7 +49,15 @@ func C18_Ops[T signal.SignalTypes]() {
 			signal.ReadStriped(w, str)
 		})
 	case 4:
-		src := allocAny[T](C, vf.Pick("ks", 0, 2), "src")
+		ks := vf.Pick("ks", 0, 2)
+		src := allocAny[T](C, ks, "src").Slice(0, vf.Pick("kl", 0, ks))
+		// unaligned operands (partly filled last frames) are appended within capacity as well
+		for i, n := 0, vf.Pick("du", 0, C-1); i < n; i++ {
+			w.AppendSample(x)
+		}
+		for i, n := 0, vf.Pick("su", 0, C-1); i < n; i++ {
+			src.AppendSample(x)
+		}
 		if w.Cap() < w.Len()+src.Len() {
 			return // appending within capacity only
 		}
@@ -94,6 +102,68 @@ func c18conv[S, D signal.SignalTypes](conv func(*signal.Buffer[S], *signal.Buffe
 	src, dst := allocAny[S](C, KS, "src"), allocAny[D](C, KD, "dst")
 	n := vf.Allocs(func() { conv(src, dst) })
 	vf.Assert("no-allocation", n == 0)
+}
+
+// c18big: the same on long buffers (size-dependent code paths); samples are zero except one symbolic value.
+func c18big[S, D signal.SignalTypes](conv func(*signal.Buffer[S], *signal.Buffer[D]) int) {
+	C := vf.Pick("C", 1, 2)
+	n := vf.Param("BigFrames", 300)
+	L := vf.Pick("L", 0, 2)
+	frames := []int{255 / C, 256/C + 1, n}
+	K := frames[L]
+	src := signal.Alloc[S](signal.Allocator{Channels: C, Length: K, Capacity: K})
+	dst := signal.Alloc[D](signal.Allocator{Channels: C, Length: K, Capacity: K})
+	src.SetSample(0, vf.Any[S]("x"))
+	got := vf.Allocs(func() { conv(src, dst) })
+	vf.Cover("big")
+	vf.Assert("no-allocation", got == 0)
+}
+
+// C18_BigIO: interleaved and striped reads and writes, single-sample appends on long buffers.
+func C18_BigIO[T signal.SignalTypes]() {
+	C := vf.Pick("C", 1, 2)
+	K := vf.Param("BigFrames", 300)
+	b := signal.Alloc[T](signal.Allocator{Channels: C, Length: K - 1, Capacity: K})
+	in := make([]T, C*K)
+	in[0] = vf.Any[T]("x")
+	str := make([][]T, C)
+	for c := range str {
+		str[c] = make([]T, K)
+	}
+	got := vf.Allocs(func() {
+		signal.Write(in, b)
+		signal.Read(b, in)
+		signal.WriteStriped(str, b)
+		signal.ReadStriped(b, str)
+		b.AppendSample(in[0])
+		b.Channel(C-1).SetSample(K-2, in[0])
+	})
+	vf.Cover("big")
+	vf.Assert("no-allocation", got == 0)
+}
+
+func C18_Big_FloatAsFloat[S, D constraints.Float]() { c18big[S, D](signal.FloatAsFloat[S, D]) }
+func C18_Big_FloatAsSigned[S constraints.Float, D constraints.Signed]() {
+	c18big[S, D](signal.FloatAsSigned[S, D])
+}
+func C18_Big_FloatAsUnsigned[S constraints.Float, D constraints.Unsigned]() {
+	c18big[S, D](signal.FloatAsUnsigned[S, D])
+}
+func C18_Big_SignedAsFloat[S constraints.Signed, D constraints.Float]() {
+	c18big[S, D](signal.SignedAsFloat[S, D])
+}
+func C18_Big_SignedAsSigned[S, D constraints.Signed]() { c18big[S, D](signal.SignedAsSigned[S, D]) }
+func C18_Big_SignedAsUnsigned[S constraints.Signed, D constraints.Unsigned]() {
+	c18big[S, D](signal.SignedAsUnsigned[S, D])
+}
+func C18_Big_UnsignedAsFloat[S constraints.Unsigned, D constraints.Float]() {
+	c18big[S, D](signal.UnsignedAsFloat[S, D])
+}
+func C18_Big_UnsignedAsSigned[S constraints.Unsigned, D constraints.Signed]() {
+	c18big[S, D](signal.UnsignedAsSigned[S, D])
+}
+func C18_Big_UnsignedAsUnsigned[S, D constraints.Unsigned]() {
+	c18big[S, D](signal.UnsignedAsUnsigned[S, D])
 }
 
 func C18_FloatAsFloat[S, D constraints.Float]() { c18conv[S, D](signal.FloatAsFloat[S, D]) }
